@@ -85,6 +85,7 @@ def correspondence(ctx, violations, known_hits):
     r = dbgcommon.run_dbg_cases(ctx, cases, tags, violations, profiles, aux=AUX, extra=sorted_check,
                                 note="model: a breakpoint at PC pauses before execution on every arrival (C11_fires); list sorted and duplicate-free (C11_sorted)")
     real = dbgcommon.cli_cross(ctx, specs, violations, limit=(30 if ctx.tier == "quick" else 600))
+    r["evaluations"] += real.get("sessions", 0)
     ctx.cleanup()
     return dbgcommon.coverage(r,
         "EXHAUSTIVE placements of .break (before the first statement, between any two, after the last, doubled, with a label) in "
